@@ -288,6 +288,13 @@ def run(ctx):
         if not guards:
             ctx.fail("R5.3", f"{cname}.__init__:guard", "no raising range guard", init, key=f"R5.3:{cname}:no-guard")
             continue
+        # the guard must test the constructor ARGUMENT (the int base class has already truncated `self`: 65535.5 -> 65535)
+        tested = {n.id for n in ast.walk(guards[0].test) if isinstance(n, ast.Name)}
+        if var not in tested:
+            ctx.fail("R5.3", f"{cname}.__init__:guard-subject", f"the range guard `{norm(guards[0].test)}` does not test the argument `{var}` but {sorted(tested)}: a value just outside the "
+                     f"range (e.g. {hi_w}.5, -0.5) is truncated into it and accepted, while the untruncated value is what is stored and serialised", guards[0],
+                     key=f"R5.3:{cname}:guard-not-on-argument")
+            continue
         lo, hi = guard_interval(prog, ftm, guards[0].test, var)
         icfg = CFG(init)
         first_store = [n for n in icfg.stmt_nodes() if any(p.startswith("self.") for p in stored_paths(n))]
